@@ -3,6 +3,7 @@
 permutes the list, or mutates stored segments through the path, must invalidate - directly or through a callee."""
 import ast
 
+from .flow import Aliases
 from .model import attr_chain, call_name, stmts_in
 
 LIST_MUTATORS = {"append", "extend", "insert", "pop", "remove", "reverse", "sort", "clear", "__setitem__", "__delitem__"}
@@ -22,9 +23,10 @@ def analyse(ctx, cls_name):
     info = {}
     for name, fn in cls.methods.items():
         writes = []
+        al = Aliases(fn)
         aliases = set(lists)
         for s in ast.walk(fn):
-            if isinstance(s, ast.Assign) and isinstance(s.targets[0], ast.Name) and ast.unparse(s.value) in lists:
+            if isinstance(s, ast.Assign) and isinstance(s.targets[0], ast.Name) and al.canon(s.value) in lists:
                 aliases.add(s.targets[0].id)
         for s in ast.walk(fn):
             if isinstance(s, ast.Assign):
@@ -55,7 +57,7 @@ def analyse(ctx, cls_name):
                             and ast.unparse(a.value.value) in aliases:
                         writes.append("stored segment reversed in place line %d" % s.lineno)
                         break
-        direct = any(isinstance(s, ast.Assign) and any(ast.unparse(t) == inval_target for t in s.targets) and isinstance(s.value, ast.Constant) and s.value.value is None
+        direct = any(isinstance(s, ast.Assign) and any(al.canon(t) == inval_target for t in s.targets) and isinstance(s.value, ast.Constant) and s.value.value is None
                      for s in ast.walk(fn))
         callees = set()
         for c in ast.walk(fn):
@@ -65,6 +67,8 @@ def analyse(ctx, cls_name):
                     callees.add(("self", ch[1]))
                 if ch and ch[:2] == ["self", "_path"] and len(ch) == 3:
                     callees.add(("path", ch[2]))
+                if isinstance(c.func, ast.Attribute) and isinstance(c.func.value, ast.Name) and c.func.value.id in al.map and al.canon(c.func.value) == "self._path":
+                    callees.add(("path", c.func.attr))
                 if ch and len(ch) == 2 and ch[0] in ctx.m.classes and c.args and ast.unparse(c.args[0]) == "self":
                     callees.add((ch[0], ch[1]))
             # item assignment through the path's own __setitem__/__delitem__ (Subpath -> Path)
